@@ -12,6 +12,8 @@ CONSTANTS AeadC,        \* AEAD code point of this run (1, 2, 3 or 65535)
           Starts,       \* "boundary" | "zero": which start positions Init offers
           Menu,         \* "none" | "small" | "full": what the adversary may deliver
           BnKind,       \* base nonce of s / r: "leaf" (opaque) or a literal pattern "zeros" | "ones" | "alt"
+          LenVar,       \* rotates the table of plaintext / aad lengths
+          HistLen,      \* print behaviours when hist has this many steps (generation runs)
           Emit          \* TRUE: print every distinct (state, last call) as JSON
 
 TheSuite == <<KEM_X25519, KDF_SHA256, AeadC>>
@@ -58,20 +60,19 @@ MC_Init ==
                   ELSE <<>>
 
 \* the n-th message of a sender has its own plaintext and aad (lengths straddle block sizes)
-PtLens  == <<0, 1, 17, 32, 15, 64>>
-AadLens == <<0, 5, 0, 16, 1, 17>>
-MC_PtMenu(n)  == {Leaf("pt" \o ToString(n), PtLens[(n % 6) + 1])}
-MC_AadMenu(n) == {Leaf("aad" \o ToString(n), AadLens[(n % 6) + 1])}
+PtLens  == <<0, 1, 17, 32, 15, 64, 16, 33>>
+AadLens == <<0, 5, 0, 16, 1, 17, 17, 1>>
+MC_PtMenu(n)  == {Leaf("pt" \o ToString(n), PtLens[((n + LenVar) % 8) + 1])}
+MC_AadMenu(n) == {Leaf("aad" \o ToString(n), AadLens[((n + LenVar) % 8) + 1])}
 
-MsgIdx == 1..MaxSeals
 D(k, s, i, j, n) == [k |-> k, s |-> s, i |-> i, j |-> j, n |-> n]
-SmallMenu ==
+SmallMenu(MsgIdx) ==
     {D("msg", s, i, 0, 0) : s \in {"s", "x"}, i \in MsgIdx}
     \cup {D("flipct", "s", i, 0, 0) : i \in MsgIdx} \cup {D("fliptag", "s", i, 0, 7) : i \in MsgIdx}
     \cup {D("trunc", "s", i, 0, 1) : i \in MsgIdx} \cup {D("extend", "s", i, 0, 1) : i \in MsgIdx}
     \cup {D("swapaad", "s", i, j, 0) : i \in MsgIdx, j \in MsgIdx}
     \cup {D("garbage", "s", 3, 16, 17), D("garbage", "s", 0, 0, 15), D("garbage", "s", 0, 0, 0)}
-FullMenu ==
+FullMenu(MsgIdx) ==
     {D("msg", s, i, 0, 0) : s \in {"s", "x"}, i \in MsgIdx}
     \cup {D(k, "s", i, 0, n) : k \in {"flipct", "fliptag", "flipaad"}, i \in MsgIdx, n \in {0, 7}}
     \cup {D(k, "s", i, 0, n) : k \in {"trunc", "truncfront", "extend", "prepend", "extendbody",
@@ -81,17 +82,30 @@ FullMenu ==
     \cup {D("garbage", "s", a, 16, n) : a \in {0, 3}, n \in {0, 1, 15, 16, 17}}
     \cup {D("garbage", "s", 0, 0, n) : n \in {0, 1, 15}}        \* shorter than a tag (alloc form only)
 
-MC_DeliveryMenu == CASE Menu = "none" -> {} [] Menu = "small" -> SmallMenu [] Menu = "full" -> FullMenu
+\* C06: EVERY single-bit position of ciphertext, tag and aad, every truncation length, extensions at
+\* either end, every substitution between two messages (ranges follow the actual message sizes)
+IntegrityMenu(ms) ==
+    LET Idx == 1..Len(ms) IN
+    {D("msg", "s", i, 0, 0) : i \in Idx}
+    \cup UNION {{D("flipct", "s", i, 0, n) : n \in 0..(8 * BLen(ms[i].ct) - 1)} : i \in Idx}
+    \cup UNION {{D("fliptag", "s", i, 0, n) : n \in 0..(8 * BLen(ms[i].tag) - 1)} : i \in Idx}
+    \cup UNION {{D("flipaad", "s", i, 0, n) : n \in 0..(8 * BLen(ms[i].aad) - 1)} : i \in Idx}
+    \cup UNION {{D(k, "s", i, 0, n) : k \in {"trunc", "truncfront"}, n \in 1..(BLen(ms[i].ct) + BLen(ms[i].tag))} : i \in Idx}
+    \cup UNION {{D("truncbody", "s", i, 0, n) : n \in 1..BLen(ms[i].ct)} : i \in Idx}
+    \cup {D(k, "s", i, 0, n) : k \in {"extend", "prepend", "extendbody", "extendaad"}, i \in Idx, n \in {1, 16}}
+    \cup {D(k, "s", i, j, 0) : k \in {"swaptag", "swapaad", "swapct"}, i \in Idx, j \in Idx}
+    \cup {D("emptyaad", "s", i, 0, 0) : i \in Idx}
+MC_DeliveryMenu(snt) ==
+    CASE Menu = "none" -> {} [] Menu = "small" -> SmallMenu(1..MaxSeals) [] Menu = "full" -> FullMenu(1..MaxSeals)
+      [] Menu = "integrity" -> IntegrityMenu(snt["s"])
 
 MC_ExportMenu == {<<<<>>, 32>>, <<Leaf("ectx", 7), 32>>, <<Leaf("ectx", 7), 0>>,
                   <<<<>>, 8160>>, <<<<>>, 8161>>}
 
 NoSetups(x) == {}
-\* one line per distinct (state, last call): everything a one-transition test needs
-PrintState ==
-    (Emit /\ last.op # "init") =>
-        PrintT(ToJson([last |-> last, sent |-> sent, raw |-> <<RawCtxRec(RawS), RawCtxRec(RawR), RawCtxRec(RawX)>>]))
+\* one line per generated transition: everything a one-transition implementation test needs
+EmitTr ==
+    Emit => PrintT(ToJson([last |-> last', sent |-> sent', raw |-> <<RawCtxRec(RawS), RawCtxRec(RawR), RawCtxRec(RawX)>>]))
 
-Done == used["seal"] + used["open"] + used["export"] + used["setseq"] >= MaxSeals + MaxOpens + MaxExports
-PrintHist == (RecordHist /\ ~ENABLED Next) => PrintT(ToJson(hist))
+PrintHist == (RecordHist /\ Len(hist) = HistLen) => PrintT(ToJson(hist))
 =============================================================================
